@@ -51,6 +51,11 @@ class View:
             ls.append(f"{self.ni[l.parent_network.name]}:{cb}:{plus(self.di[d.name] for d in l.disconnectors)}:{self.sec_index(l.section)}")
         ss = []
         for n, s in self.secs:
+            for x in s.switches:
+                if x.name not in self.di and x.name not in self.ci:
+                    from .common import ImplBroken
+                    raise ImplBroken(f"section {[l.name for l in s.lines]} of {n.name} lists switch {x.name}, which sits on the backup line {x.line.name} "
+                                     "(backup lines belong to no section)")
             sw = [("d%d" % self.di[x.name]) if x.name in self.di else ("c%d" % self.ci[x.name]) for x in s.switches]
             ss.append(f"{plus(self.li[l.name] for l in s.lines)}:{plus(sw)}")
         ns = []
@@ -161,9 +166,23 @@ def run_scenario(case, observer=None):
         v = state["view"]
         k = int(round(curr_time.get_hours() / dt))
         state["k"] = k
+        if state.get("restore"):
+            c_, rate_, rng_ = state.pop("restore")
+            c_.software_fail_rate_per_year = rate_
+            c_.ps_random = rng_
         for (name, rep) in faults.get(str(k), []):
             l = comp(ps_, name)
             kindname = type(l).__name__
+            if kindname == "MainController" and str(rep) == "sw":
+                # a software failure of the main controller in this increment, through the real draw (failure rate raised for one
+                # increment, generator answering: no hardware failure, software failure, cured by the new signal).  The controller's
+                # own recovery time is then handed to the sub-controllers with an open breaker: outside the loop model, oracle only.
+                state["devfail"] = True
+                if l.state.name == "OK":
+                    state["restore"] = (l, l.software_fail_rate_per_year, l.ps_random)
+                    l.software_fail_rate_per_year = 1e15
+                    l.ps_random = net.SeqRng([1, 0, 1])
+                continue
             if kindname == "MainController":
                 # the main controller goes down for `rep` hours (hardware failure under manual repair): the sub-controllers
                 # fall back on their manual loops meanwhile; the model follows with `ctl step` instead of `ctl astep`
@@ -241,6 +260,17 @@ def run_scenario(case, observer=None):
                "ptimers": {n.name: n.controller.parent_sectioning_time.get_hours() for n in v.nets if hasattr(n.controller, "parent_sectioning_time")},
                "failed": [l.name for l in v.lines if l.failed],
                "ict_failed": [c.name for c in list(getattr(ps, "ict_lines", [])) + list(getattr(ps, "ict_nodes", [])) if c.failed]}
+        # C07.breaker_open_only_while on the real objects: after the control pass a breaker is open only while the sectioning time
+        # runs, the section of its own line holds a failed line, or the survival hold applies
+        bad = []
+        for n in v.nets:
+            if n.connected_line.circuitbreaker.is_open:
+                running = n.controller.sectioning_time.get_hours() > 0
+                own = any(l.failed for l in n.connected_line.section.lines) if n.connected_line.section is not None else False
+                hold = getattr(getattr(n, "mode", None), "name", None) == "SURVIVAL" and bool(n.distribution_network.failed_line)
+                if not (running or own or hold):
+                    bad.append(n.name)
+        rec["open_no_reason"] = bad
         if observer is not None:
             observer(ps, v, rec)
         info.append(rec)
